@@ -207,10 +207,14 @@ impl RtrStream {
         keepalive: Option<Duration>,
         server_metrics: &RtrServerMetrics,
     ) -> Result<Self, io::Error> {
+        #[cfg(routinator_verif)]
+        verif::stream_new_entered()?;
         if let Some(duration) = keepalive {
             Self::set_keepalive(&sock, duration)?
         }
         let metrics = server_metrics.get_client(addr.ip());
+        #[cfg(routinator_verif)]
+        verif::stream_point("got");
         metrics.update(|metrics| metrics.inc_current_connections());
         Ok(RtrStream {
             sock: MaybeTlsTcpStream::new(sock, tls),
@@ -327,3 +331,96 @@ impl Drop for RtrStream {
     }
 }
 
+
+//------------ Verification hooks --------------------------------------------
+
+/// Access to the listener and stream types for verification harnesses.
+#[cfg(routinator_verif)]
+pub mod verif {
+    use super::*;
+
+    /// Called at the top of `RtrStream::new`.
+    ///
+    /// Counts the call and fails if the harness queued a forced failure.
+    pub(super) fn stream_new_entered() -> Result<(), io::Error> {
+        crate::verif::count("rtr.stream.new");
+        match crate::verif::forced("rtr.stream.new") {
+            Some(1) => Err(io::Error::other("forced setup failure")),
+            _ => Ok(())
+        }
+    }
+
+    /// A rendezvous point named after the current thread.
+    pub(super) fn stream_point(step: &str) {
+        let thread = std::thread::current();
+        crate::verif::point(&format!(
+            "rtrstream.new.{}@{}", step, thread.name().unwrap_or("")
+        ));
+    }
+
+    /// The RTR listener stream, to be polled by hand.
+    pub struct Listener(RtrListener);
+
+    impl Listener {
+        /// Wraps a bound, non-blocking listener the way
+        /// `single_rtr_listener` does. Needs a Tokio runtime context.
+        pub fn new(
+            listener: StdListener,
+            keepalive: Option<Duration>,
+            server_metrics: Arc<RtrServerMetrics>,
+        ) -> Result<Self, io::Error> {
+            Ok(Listener(RtrListener {
+                tcp: TcpListener::from_std(listener)?,
+                backoff: None,
+                tls: None, keepalive, server_metrics,
+                addr: String::from("verif"),
+            }))
+        }
+
+        /// Polls the stream once.
+        ///
+        /// Returns `Pending`, or `Ready(Some(Ok(stream)))` for an accepted
+        /// connection; the other two cases are mapped to errors.
+        pub fn poll_next(
+            &mut self, ctx: &mut Context<'_>
+        ) -> Poll<Result<Conn, io::Error>> {
+            match Pin::new(&mut self.0).poll_next(ctx) {
+                Poll::Pending => Poll::Pending,
+                Poll::Ready(Some(Ok(stream))) => {
+                    Poll::Ready(Ok(Conn(stream)))
+                }
+                Poll::Ready(Some(Err(err))) => Poll::Ready(Err(err)),
+                Poll::Ready(None) => {
+                    Poll::Ready(Err(io::Error::other("stream ended")))
+                }
+            }
+        }
+
+        /// Returns whether an accept back-off is currently set.
+        pub fn has_backoff(&self) -> bool {
+            self.0.backoff.is_some()
+        }
+    }
+
+    /// An accepted RTR connection. Dropping it closes the connection.
+    pub struct Conn(RtrStream);
+
+    impl Conn {
+        /// Runs `RtrStream::new` on a connected socket.
+        pub fn new(
+            sock: TcpStream,
+            addr: SocketAddr,
+            keepalive: Option<Duration>,
+            server_metrics: &RtrServerMetrics,
+        ) -> Result<Self, io::Error> {
+            RtrStream::new(
+                sock, addr, None, keepalive, server_metrics
+            ).map(Conn)
+        }
+
+        /// Returns the identity of the per-address metrics entry.
+        pub fn client_ptr(&self) -> Option<usize> {
+            self.0.metrics.verif_client_ptr()
+        }
+    }
+}
